@@ -384,9 +384,99 @@ func c08GenFocused(r *rand.Rand) c08Input {
 	return in
 }
 
+// c08GenMixedFields: a Fields list that mixes plain and root.-prefixed names, on a trace where
+// some spans lack the plain field (so the value falls back to the root span and does NOT match)
+// while another span carries the plain field with a matching value.  This is the shape on which
+// the checkedOnlyRoot bookkeeping of extractValueFromSpan decides whether the span loops may stop
+// early; it has to be cumulative over the Fields already looked at.  One sixth of all cases.
+func c08GenMixedFields(r *rand.Rand) c08Input {
+	in := c08Input{Seed: int64(1 + r.Intn(1_000_000)), TraceID: fmt.Sprintf("trace-%d", r.Intn(1000))}
+	match := c08PickScalar(r, false)
+	for match.K == "nil" || match.K == "map" || match.K == "arr" {
+		match = c08PickScalar(r, false)
+	}
+	other := c08PickScalar(r, false)
+	for other.K == match.K && fmt.Sprint(other.goSpan()) == fmt.Sprint(match.goSpan()) {
+		other = c08PickScalar(r, false)
+	}
+	// the Fields list: plain "x" and root-prefixed "root.y" in either order, sometimes with a
+	// third name (absent, or a second root-prefixed one) in front, between or behind
+	fields := []string{"x", "root.y"}
+	if r.Intn(3) == 0 {
+		fields = []string{"root.y", "x"}
+	}
+	if r.Intn(3) == 0 {
+		extra := []string{"zz", "root.zz", "root.x", "y"}[r.Intn(4)]
+		pos := r.Intn(len(fields) + 1)
+		fields = append(fields[:pos:pos], append([]string{extra}, fields[pos:]...)...)
+	}
+	cond := c08Cond{Fields: fields, Op: "=", Val: c08Kin(r, match)}
+	switch r.Intn(6) {
+	case 0:
+		cond.Op = "in"
+		cond.Val = rvVal{K: "list", L: []rvVal{match}}
+	case 1:
+		cond.Op = "!="
+		cond.Val = other
+	case 2:
+		cond.Dt = "string"
+		cond.Val = rvVal{K: "s", S: fmt.Sprintf("%v", match.goSpan())}
+	}
+	// spans: some lack x (they fall back to root.y), one carries x = match; the root carries
+	// y = other (non-matching) and may itself be any of them, first or last, or missing
+	n := 2 + r.Intn(3)
+	carrier := r.Intn(n)
+	if r.Intn(2) == 0 {
+		carrier = n - 1 // the matching span comes last: every earlier span must not stop the loop
+	}
+	for k := 0; k < n; k++ {
+		var sp []c08Field
+		if k == carrier {
+			sp = append(sp, c08Field{K: "x", V: match})
+		} else if r.Intn(5) == 0 {
+			sp = append(sp, c08Field{K: "x", V: other})
+		}
+		if r.Intn(3) == 0 {
+			sp = append(sp, c08Field{K: "b", V: c08PickScalar(r, false)})
+		}
+		in.Spans = append(in.Spans, sp)
+	}
+	in.Root = r.Intn(n+1) - 1
+	if in.Root >= 0 {
+		rootY := other
+		if r.Intn(6) == 0 {
+			rootY = match
+		}
+		if r.Intn(8) != 0 {
+			in.Spans[in.Root] = append(in.Spans[in.Root], c08Field{K: "y", V: rootY})
+		}
+	}
+	ru := c08Rule{Name: "mixed", Rate: 1, Drop: r.Intn(2) == 0, Scope: []string{"", "trace", "span", "span"}[r.Intn(4)], Conds: []c08Cond{cond}}
+	// neighbours: further conditions before / after (on the same or other fields)
+	if r.Intn(3) == 0 {
+		extra := c08Cond{Field: []string{"b", "x", "root.y", "root.b"}[r.Intn(4)], Op: []string{"exists", "not-exists", "exists"}[r.Intn(3)], Val: rvVal{K: "nil"}}
+		if r.Intn(2) == 0 {
+			ru.Conds = append([]c08Cond{extra}, ru.Conds...)
+		} else {
+			ru.Conds = append(ru.Conds, extra)
+		}
+	}
+	if r.Intn(4) == 0 {
+		ru.Conds = append(ru.Conds, c08Cond{Op: "has-root-span", Val: rvVal{K: "b", B: in.Root >= 0}})
+	}
+	in.Rules = []c08Rule{ru}
+	if r.Intn(3) == 0 {
+		in.Rules = append(in.Rules, c08Rule{Name: "fallback", Rate: 2, Conds: []c08Cond{{Field: "root.y", Op: "exists", Val: rvVal{K: "nil"}}}})
+	}
+	return in
+}
+
 func c08Gen(r *rand.Rand, tier string, i int) any {
 	if i%3 == 1 {
 		return c08GenFocused(r)
+	}
+	if i%6 == 2 {
+		return c08GenMixedFields(r)
 	}
 	in := c08Input{Seed: int64(1 + r.Intn(1_000_000)), TraceID: fmt.Sprintf("trace-%d", r.Intn(1000))}
 	nspans := 1 + r.Intn(4)
